@@ -46,6 +46,10 @@ def build(force_configure=False):
     try:
         t0 = time.time()
         bdir = os.path.join(BUILD, "h")
+        stamp = os.path.join(BUILD, ".repo")
+        if not os.path.exists(stamp) or open(stamp).read().strip() != REPO:
+            force_configure = True
+            open(stamp, "w").write(REPO)
         if force_configure or not os.path.exists(os.path.join(bdir, "build.ninja")):
             r = subprocess.run(
                 ["cmake", "-G", "Ninja", "-S", os.path.join(VERIF, "harness"), "-B", bdir, f"-DREPO={REPO}"],
